@@ -80,6 +80,17 @@ func RenameHelpers(src, suffix string) string {
 			if names[x.Sel.Name] {
 				x.Sel.Name += suffix
 			}
+		case *ast.InterfaceType:
+			// an interface a base declares for itself lists the helper methods by name
+			if x.Methods != nil {
+				for _, f := range x.Methods.List {
+					for _, n := range f.Names {
+						if names[n.Name] {
+							n.Name += suffix
+						}
+					}
+				}
+			}
 		case *ast.CallExpr:
 			if id, ok := x.Fun.(*ast.Ident); ok && names[id.Name] {
 				id.Name += suffix
